@@ -278,3 +278,20 @@ Proof.
   unfold is_match, spec_is_match in *. cbn [fold_right existsb].
   rewrite match_pattern_correct, IH. destruct (wm p s); reflexivity.
 Qed.
+
+(* PatternSet::new: refused exactly when some pattern of the set is empty, wherever it stands; otherwise the set is the patterns given *)
+Lemma new_set_refuses_exactly (ps : list (list A)) :
+  (new_set ps = None <-> In [] ps) /\ (forall qs, new_set ps = Some qs -> qs = ps /\ ~ In [] ps).
+Proof.
+  unfold new_set.
+  destruct (existsb (fun p => match p with [] => true | _ => false end) ps) eqn:E.
+  - apply existsb_exists in E as [p [Hin Hp]]. destruct p; [|discriminate].
+    split; [split; auto|]. intros qs H. discriminate.
+  - split.
+    + split; [discriminate|]. intros Hin. exfalso.
+      assert (existsb (fun p : list A => match p with [] => true | _ => false end) ps = true) as H by (apply existsb_exists; exists []; auto).
+      congruence.
+    + intros qs [= <-]. split; [reflexivity|]. intros Hin.
+      assert (existsb (fun p : list A => match p with [] => true | _ => false end) ps = true) as H by (apply existsb_exists; exists []; auto).
+      congruence.
+Qed.
